@@ -181,6 +181,9 @@ class CallGraph:
         self.unresolved[f.qual] = unres
 
     # ---- queries -----------------------------------------------------------------
+    def classes_defining_name(self, meth):
+        return [c for c in self.prog.classes.values() if meth in c.methods]
+
     def callees(self, f):
         out = []
         for _, cs in self.calls.get(f.qual, []):
